@@ -197,6 +197,12 @@ impl H263State {
                 vec![DecodedDctBlock::Zero; level_dimensions.0 * level_dimensions.1 / 4 / 64];
 
             loop {
+                // Once every macroblock of the picture has been decoded the picture is
+                // complete; whatever follows belongs to the next picture.
+                if macroblock_types.len() >= mb_per_line * mb_height {
+                    break;
+                }
+
                 let mb = decode_macroblock(
                     reader,
                     next_decoded_picture.as_header(),
